@@ -332,7 +332,7 @@ def oracle_spatial(case, rec):
     ok, snet = rec.call("spatial_construct", mk_spatial)
     if ok:
         check_net(rec, snet, "spatial", g, n, A, w, attrs)
-        for fmt in ("graphml", "pickle"):
+        for fmt in ("graphml", "pickle", "gml"):
             fnn, fng = "sn_%d.%s" % (pid, fmt), "sg_%d.pkl" % pid
 
             def rt(fmt=fmt, fnn=fnn, fng=fng):
@@ -373,7 +373,7 @@ def oracle_spatial(case, rec):
         directed=directed, node_weight_type=nwt, silence_level=3))
     if ok and el:
         check_net(rec, gnet2, "geo_edge_list", g, n, A, wg, {}, tol=2e-6)
-    for fmt in ("graphml", "pickle"):
+    for fmt in ("graphml", "pickle", "gml"):
         fnn, fng = "gn_%d.%s" % (pid, fmt), "gg_%d.pkl" % pid
 
         def rt(fmt=fmt, fnn=fnn, fng=fng):
